@@ -1,7 +1,7 @@
 (* Model.GeomRun: case type and executable checkers for Run/cases_C18.v (no proofs).
    model_ok  : the implementation's output equals the model's on the same input;
    spec_class: the property itself, decided on the implementation's output alone. *)
-From DV Require Import Base.Prelude Base.Int Base.WrapZ Gen.Consts Gen.Arith Model.Geometry Model.RLE Model.ROI.
+From DV Require Import Base.Prelude Base.Int Base.WrapZ Gen.Consts Model.Geometry Model.RLE Model.ROI.
 Local Open Scope Z_scope.
 
 Definition zb (b : bytes) : list Z := map Z.of_N b.
